@@ -139,7 +139,12 @@ func apply(doc any, m mutation) any {
 	return d
 }
 
-func mutationsOf(doc any) []mutation {
+// restricted alphabet for the deepest explorations: delete, null, -1, "str"
+var restrictedAlphabet = map[string]bool{"null": true, "-1": true, "\"str\"": true}
+
+func mutationsOf(doc any) []mutation { return mutationsOfA(doc, false) }
+
+func mutationsOfA(doc any, restricted bool) []mutation {
 	var ps []jpath
 	nodes(doc, nil, &ps)
 	var out []mutation
@@ -147,13 +152,13 @@ func mutationsOf(doc any) []mutation {
 		out = append(out, mutation{Path: p, Delete: true, Name: "delete"})
 		cur := getAt(doc, p)
 		for _, r := range replacements {
-			if reflect.DeepEqual(cur, r.v) {
+			if reflect.DeepEqual(cur, r.v) || (restricted && !restrictedAlphabet[r.name]) {
 				continue
 			}
 			out = append(out, mutation{Path: p, Replace: r.v, Name: "=" + r.name})
 		}
 		if len(p) >= 1 {
-			if k, ok := p[len(p)-1].(string); ok && k == "crs" {
+			if k, ok := p[len(p)-1].(string); ok && k == "crs" && !restricted {
 				for _, a := range crsAlternatives {
 					out = append(out, mutation{Path: p, Replace: a.v, Name: "=" + a.name})
 				}
@@ -502,14 +507,14 @@ type item struct {
 }
 
 // explore runs a BFS of the given depth from root; every new state is judged.
-func explore(r *ev.Run, sd *c16Shard, seen map[string]bool, base string, root any, depth int, samples *ev.Samples, hashes *[]uint64) int {
+func explore(r *ev.Run, sd *c16Shard, seen map[string]bool, base string, root any, depth int, samples *ev.Samples, hashes *[]uint64, restricted bool) int {
 	level := []item{{base, root, nil}}
 	seen[canon(root)] = true
 	completed := 0
 	for d := 1; d <= depth; d++ {
 		var next []item
 		for _, it := range level {
-			for mi, m := range mutationsOf(it.tree) {
+			for mi, m := range mutationsOfA(it.tree, restricted) {
 				// the search tree is sharded over worker processes by its level-1 subtrees
 				if d == 1 && r.ShardN > 0 && mi%r.ShardN != r.ShardI {
 					continue
@@ -555,26 +560,27 @@ func explore(r *ev.Run, sd *c16Shard, seen map[string]bool, base string, root an
 
 // plan: which (document, reduction, depth) explorations a tier performs
 type c16Plan struct {
-	Doc    string
-	Reduce int // 0 = full document
-	Depth  int
+	Doc        string
+	Reduce     int // 0 = full document
+	Depth      int
+	Restricted bool // mutation alphabet {delete, null, -1, "str"} only
 }
 
 func c16Plans(thorough bool) []c16Plan {
 	names := append(append([]string{}, builtins...), "SomethingWithBottomLeftAndLatLonAndDoubleHeight")
 	var ps []c16Plan
 	for _, n := range names {
-		ps = append(ps, c16Plan{n, 0, 1})
+		ps = append(ps, c16Plan{n, 0, 1, false})
 	}
 	reps := []string{"NetherlandsRDNewQuad", "SomethingWithBottomLeftAndLatLonAndDoubleHeight", "CDB1GlobalGrid", "LINZAntarticaMapTilegrid", "WorldCRS84Quad"}
 	if thorough {
 		for _, n := range names {
-			ps = append(ps, c16Plan{n, 2, 2})
+			ps = append(ps, c16Plan{n, 2, 2, false})
 		}
-		ps = append(ps, c16Plan{"SomethingWithBottomLeftAndLatLonAndDoubleHeight", 1, 3}, c16Plan{"CDB1GlobalGrid", 1, 3})
+		ps = append(ps, c16Plan{"SomethingWithBottomLeftAndLatLonAndDoubleHeight", 1, 3, true}, c16Plan{"CDB1GlobalGrid", 1, 3, true})
 	} else {
 		for _, n := range reps {
-			ps = append(ps, c16Plan{n, 1, 2})
+			ps = append(ps, c16Plan{n, 1, 2, false})
 		}
 	}
 	return ps
@@ -606,8 +612,8 @@ func runC16() {
 				}
 				sd.Accepted++
 			}
-			done := explore(r, &sd, map[string]bool{}, name, root, p.Depth, samples, &hashes)
-			sd.Depth[fmt.Sprintf("%s/reduce=%d/depth=%d", p.Doc, p.Reduce, p.Depth)] = done
+			done := explore(r, &sd, map[string]bool{}, name, root, p.Depth, samples, &hashes, p.Restricted)
+			sd.Depth[fmt.Sprintf("%s/reduce=%d/depth=%d/restricted=%v", p.Doc, p.Reduce, p.Depth, p.Restricted)] = done
 		}
 		sd.Samples = samples.L
 		hb := make([]byte, 8*len(hashes))
@@ -659,7 +665,7 @@ func runC16() {
 	r.Finish(map[string]any{
 		"states": int64(len(distinct)) + 15, "states_visited_incl_cross_shard_duplicates": tot.States, "transitions": tot.Trans, "traces_validated_against_impl": 0, "samples": tot.Samples,
 		"evaluations": tot.States, "distinct_nontrivial": min(tot.Accepted, int64(len(distinct))),
-		"rule":       "explicit-state BFS: states = distinct documents (canonical JSON), transitions = one structural mutation at one node (delete key / drop array element, replace by each of 11 values, 6 alternative crs encodings); depth 1 from each of the 15 full documents; depth 2 (thorough: also depth 3 for two documents) from documents reduced to 1 (thorough 2) tile matrices; every state is decoded/encoded/decoded by the real tms20 code; non-trivial = documents the decoder accepts",
+		"rule":       "explicit-state BFS: states = distinct documents (canonical JSON), transitions = one structural mutation at one node (delete key / drop array element, replace by each of 11 values, 6 alternative crs encodings); depth 1 from each of the 15 full documents; depth 2 (thorough: also depth 3 with the restricted alphabet {delete, null, -1, \"str\"} for two documents) from documents reduced to 1 (thorough 2) tile matrices; every state is decoded/encoded/decoded by the real tms20 code; non-trivial = documents the decoder accepts",
 		"exhaustive": !tot.NotExhaustive, "explorations_depth_completed": tot.Depth,
 		"accepted": tot.Accepted, "rejected": tot.Rejected,
 	})
